@@ -449,6 +449,11 @@ def plan(tier, seed):
     others += [dict(kind='whole', key='3SGB', chains=['E']), dict(kind='whole', key='3SGB', chains=['I']),
                dict(kind='whole', key='1HPX', chains=['B'])]
     others += [dict(kind='cfg-table')]
+    # residues cut down to the backbone plus the defining atom of their group (no interaction atoms left)
+    for rtype, keep in (('ASP', ('CB', 'CG')), ('GLU', ('CB', 'CG', 'CD')), ('HIS', ('CB', 'CG')), ('ARG', ('CB', 'CG', 'CD', 'CZ')),
+                        ('TYR', ('CB', 'OH')), ('LYS', ('CB', 'NZ')), ('CYS', ('SG',))):
+        for pos in (0, 1, 2):
+            others.append(dict(kind='stripped', rtype=rtype, keep=list(keep), pos=pos))
     # multi-conformation inputs whose conformations complete each other (alt-loc partial alternates, models with missing
     # atoms): every conformation must show the census of the complete residue, also under titrate-only / chain selection
     for lay in ([(' ', 'ASP'), ('B', 'ASPs')], [('A', 'ASP'), ('B', 'ASPs'), ('C', 'ASP')], [('1', 'ASPs'), ('2', 'ASP')]):
@@ -492,6 +497,21 @@ def run_case(case, ctx, acc):
             for nums in ((1, 2), (3,), (1, 2, 5)):
                 multi = ''.join('MODEL     %4d\n%sENDMDL\n' % (n, one) for n in nums)
                 compare(dict(case, models=list(nums)), items, (), acc, text=multi)
+                acc.n += 1
+            # a hetero record (ion) as first coordinate record of the file and after every residue boundary: transparent
+            # for the chain-start rule; the ion itself must be reported as an ion group
+            bounds = [0]
+            for q in range(1, len(items)):
+                a, b = items[q - 1], items[q]
+                if isinstance(b, str):
+                    continue
+                if isinstance(a, str) or a.reskey != b.reskey:
+                    bounds.append(q)
+            for q in bounds:
+                ref = next(i for i in items[q:] + items[:q][::-1] if not isinstance(i, str))
+                ion_ = gen.ion('CA', 'M', 950 + q, at=(ref.x + 1000, ref.y + 15000, ref.z - 12000)).atoms[0]
+                with_ion = items[:q] + [ion_] + items[q:]
+                compare(dict(case, hetero_at=q), with_ion, (), acc, judge_hetero=hetero_judge({}, {'CA': 2}))
                 acc.n += 1
             atoms = [i for i in items if not isinstance(i, str)]
             chains = sorted({a.chain for a in atoms})
@@ -556,6 +576,21 @@ def run_case(case, ctx, acc):
         acc.case(nontrivial_key=jhash(case), outcome='whole:%s:%d' % (case['key'], len(exp)))
     elif k == 'cfg-table':
         cfg_table(case, acc)
+    elif k == 'stripped':
+        items = []
+        for i in range(3):
+            rt = case['rtype'] if i == case['pos'] else 'GLY'
+            atoms = token_residue(rt)
+            if i == case['pos']:
+                atoms = [a for a in atoms if a.name in gen.BACKBONE or a.name in case['keep']]
+            if i == 2:
+                atoms = add_oxt(atoms)
+            for a in atoms:
+                a.chain, a.resnum = 'A', 10 + i
+                a.x += 40000 * i    # residues far apart, as in the record streams (connectivity is irrelevant for the census)
+            items += atoms
+        cks, exp, mol = compare(case, gen.S(items).translate(gen.seed_offset(ctx.seed)).items, (), acc)
+        acc.case(nontrivial_key=jhash(case), outcome='stripped')
     elif k == 'layout':
         from . import c08
         d = dict(kind=case['how'], layout=case['layout'])
